@@ -273,6 +273,20 @@ Proof.
     destruct (cmd_new i s1 (PM qid)) as [[s2 ok2] t2]. cbn [fst snd] in N2. subst ok2. reflexivity.
 Qed.
 
+Lemma keep_refused_is_err i s known r adj qid coins :
+  epr_gate known i r adj = false \/ snd (fst (cmd_new i s (PP qid))) = false \/
+  snd (fst (cmd_new i (fst (fst (cmd_new i s (PP qid)))) (PM qid))) = false ->
+  snd (fst (cmd_epr_keep i s known r adj qid coins)) = RErr.
+Proof.
+  unfold cmd_epr_keep. intros [G|[N1|N2]].
+  - rewrite G. reflexivity.
+  - destruct (negb (epr_gate known i r adj)); [reflexivity|].
+    destruct (cmd_new i s (PP qid)) as [[s1 ok1] t1]. cbn [fst snd] in N1. subst ok1. apply epr_fail_res.
+  - destruct (negb (epr_gate known i r adj)); [reflexivity|].
+    destruct (cmd_new i s (PP qid)) as [[s1 ok1] t1]. cbn [fst snd] in N2. destruct ok1; [|apply epr_fail_res]. cbn [negb].
+    destruct (cmd_new i s1 (PM qid)) as [[s2 ok2] t2]. cbn [fst snd] in N2. subst ok2. apply epr_fail_res.
+Qed.
+
 Theorem refused_measure_creates_nothing i s known r adj qid bl br c1 c2 coins :
   epr_gate known i r adj = false -> cmd_epr_measure i s known r adj qid bl br c1 c2 coins = (s, RErr, [], None).
 Proof. intro H. unfold cmd_epr_measure. rewrite H. reflexivity. Qed.
